@@ -36,6 +36,7 @@ ENV_MODES = [
     ('hash-random', [], {'PYTHONHASHSEED': 'random'}),
     ('optimize+warnings-as-errors', ['-OO'], {'VERIF_WERROR': '1'}),
     ('cwd-elsewhere', [], {'VERIF_CWD': 'tmp'}),
+    ('library-busy', [], {'VERIF_AMBIENT': '1'}),               # other uses of mido suspended half way (vmon.ambient)
 ]
 
 
@@ -47,6 +48,8 @@ def env_mode_of(shard, env_pass=0):
 
 def apply_env_mode_in_child():
     """Called first thing in a shard (or a replay child): what cannot be set from outside."""
+    from . import clock
+    clock.install()          # before anything imports mido
     if os.environ.get('VERIF_WERROR') == '1':
         import warnings
         warnings.simplefilter('error')
@@ -60,6 +63,10 @@ def apply_env_mode_in_child():
         import atexit
         import shutil
         atexit.register(shutil.rmtree, d, True)
+    if os.environ.get('VERIF_AMBIENT') == '1':
+        os.environ.pop('VERIF_AMBIENT')          # this process only: not its cold-start children
+        from . import ambient
+        ambient.enter_forever()
 MAX_VIOLATIONS_PER_KEY = 5
 MAX_SAMPLES = 12
 NCPU = 16
@@ -367,7 +374,8 @@ def shard_main(argv):
 def run_shards(pid, tier, seed, mod):
     n = mod.nshards(tier)
     # (the thorough tier is many times larger: there the round robin over the shards covers the modes)
-    passes = len(ENV_MODES) if getattr(mod, 'ENV_FULL', False) and tier == 'quick' else 1
+    ef = getattr(mod, 'ENV_FULL', False)
+    passes = len(ENV_MODES) if ef and (tier == 'quick' or ef == 'both') else 1
     total = n * passes
     wdir = os.path.join(WORK, f'{pid}-{os.getpid()}')
     os.makedirs(wdir, exist_ok=True)
